@@ -1,4 +1,416 @@
 /- Proofs/Fill.lean — helper lemmas for Props/C15.lean -/
 import PM.Fill
 namespace PM
+
+/-! ### automaton basics -/
+
+theorem find?_fst_of_mem_nodup {α β : Type} [BEq α] [LawfulBEq α] :
+    ∀ (l : List (α × β)) (t : α) (n : β), (l.map (·.1)).Nodup → (t, n) ∈ l →
+      l.find? (·.1 == t) = some (t, n)
+  | [], _, _, _, h => by simp at h
+  | (a, b) :: l, t, n, hnd, h => by
+    simp only [List.map_cons, List.nodup_cons] at hnd
+    simp only [List.mem_cons, Prod.mk.injEq] at h
+    rcases h with ⟨rfl, rfl⟩ | h
+    · simp
+    · have hne : a ≠ t := by
+        intro e; subst e
+        exact hnd.1 (List.mem_map.2 ⟨(a, n), h, rfl⟩)
+      have : (a == t) = false := by simpa using hne
+      simp only [List.find?_cons, this]
+      exact find?_fst_of_mem_nodup l t n hnd.2 h
+
+theorem Dfa.mem_of_matchType {d : Dfa} {q : Nat} {t : TypeId} {n : Nat}
+    (h : d.matchType q t = some n) : (t, n) ∈ d.edgesOf q := by
+  unfold Dfa.matchType at h
+  rcases hf : (d.edgesOf q).find? (·.1 == t) with _ | ⟨a, b⟩
+  · simp [hf] at h
+  · simp only [hf, Option.map_some, Option.some.injEq] at h
+    have hp := List.find?_some hf
+    have hm := List.mem_of_find?_eq_some hf
+    simp only [beq_iff_eq] at hp
+    subst hp; subst h; exact hm
+
+theorem Dfa.matchType_isSome_of_mem {d : Dfa} {q : Nat} {t : TypeId} {n : Nat}
+    (h : (t, n) ∈ d.edgesOf q) : (d.matchType q t).isSome = true := by
+  unfold Dfa.matchType
+  simp only [Option.isSome_map, List.find?_isSome]
+  exact ⟨(t, n), h, by simp⟩
+
+theorem Dfa.matchType_of_mem_nodup {d : Dfa} {q : Nat} {t : TypeId} {n : Nat}
+    (hnd : ((d.edgesOf q).map (·.1)).Nodup) (h : (t, n) ∈ d.edgesOf q) :
+    d.matchType q t = some n := by
+  unfold Dfa.matchType
+  rw [find?_fst_of_mem_nodup _ t n hnd h]; rfl
+
+theorem Dfa.run_append (d : Dfa) : ∀ (a : List TypeId) (q : Nat) (b : List TypeId),
+    d.run q (a ++ b) = (d.run q a).bind (fun q' => d.run q' b)
+  | [], q, b => by simp [Dfa.run]
+  | t :: a, q, b => by
+    simp only [List.cons_append, Dfa.run]
+    cases d.matchType q t with
+    | none => simp
+    | some q' => simpa using Dfa.run_append d a q' b
+
+/-- the search's stopping test at a state -/
+def fillFinished (d : Dfa) (after : List TypeId) (toEnd : Bool) (q : Nat) : Bool :=
+  match d.run q after with
+  | some f => !toEnd || d.validEnd f
+  | none => false
+
+theorem isFill_eq (d : Dfa) (gen : TypeId → Bool) (q : Nat) (after : List TypeId) (toEnd : Bool)
+    (fill : List TypeId) :
+    isFill d gen q after toEnd fill =
+      (fill.all gen && match d.run q fill with
+        | some q' => fillFinished d after toEnd q'
+        | none => false) := by
+  unfold isFill fillFinished
+  rw [Dfa.run_append]
+  cases d.run q fill <;> simp <;> rfl
+
+/-! ### soundness of `fillSearch` -/
+
+theorem fillSearch_sound_aux (d : Dfa) (gen : TypeId → Bool) (after : List TypeId) (toEnd : Bool)
+    (hdet : ∀ q, ((d.edgesOf q).map (·.1)).Nodup) :
+    (∀ (fuel q : Nat) (types : List TypeId) (seen : List Nat),
+      ∀ r seen', fillSearch d gen after toEnd fuel q types seen = (some r, seen') →
+        ∃ ext q', r = types ++ ext ∧ ext.all gen = true ∧ d.run q ext = some q' ∧
+          fillFinished d after toEnd q' = true) ∧
+    (∀ (fuel : Nat) (edges : List (TypeId × Nat)) (types : List TypeId) (seen : List Nat),
+      ∀ r seen', fillEdges d gen after toEnd fuel edges types seen = (some r, seen') →
+        ∃ t nxt ext q', (t, nxt) ∈ edges ∧ gen t = true ∧ r = types ++ t :: ext ∧ ext.all gen = true ∧
+          d.run nxt ext = some q' ∧ fillFinished d after toEnd q' = true) := by
+  apply fillSearch.mutual_induct d gen after toEnd
+  · intro q types seen r seen' h
+    simp [fillSearch] at h
+  · intro fuel q types seen finished hfin r seen' h
+    rw [fillSearch.eq_2, if_pos hfin] at h
+    simp only [Prod.mk.injEq, Option.some.injEq] at h
+    exact ⟨[], q, by simp [h.1], by simp, by simp [Dfa.run], hfin⟩
+  · intro fuel q types seen finished hfin ih r seen' h
+    rw [fillSearch.eq_2, if_neg hfin] at h
+    obtain ⟨t, nxt, ext, q', hm, hg, hr, hall, hrun, hf⟩ := ih r seen' h
+    refine ⟨t :: ext, q', hr, by simp [hg, hall], ?_, hf⟩
+    simp only [Dfa.run, Dfa.matchType_of_mem_nodup (hdet q) hm, hrun]
+  · intro fuel types seen r seen' h
+    simp [fillEdges] at h
+  · intro fuel t nxt rest types seen hc r0 seen0 hs ih r seen' h
+    rw [fillEdges.eq_2, if_pos hc, hs] at h
+    simp only [Prod.mk.injEq, Option.some.injEq] at h
+    obtain ⟨ext, q', hr, hall, hrun, hf⟩ := ih r0 seen0 hs
+    simp only [Bool.and_eq_true] at hc
+    refine ⟨t, nxt, ext, q', by simp, hc.1, ?_, hall, hrun, hf⟩
+    rw [← h.1, hr]; simp
+  · intro fuel t nxt rest types seen hc seen0 hs _ ih r seen' h
+    rw [fillEdges.eq_2, if_pos hc, hs] at h
+    obtain ⟨t', nxt', ext, q', hm, rest'⟩ := ih r seen' h
+    exact ⟨t', nxt', ext, q', List.mem_cons_of_mem _ hm, rest'⟩
+  · intro fuel t nxt rest types seen hc ih r seen' h
+    rw [fillEdges.eq_2, if_neg hc] at h
+    obtain ⟨t', nxt', ext, q', hm, rest'⟩ := ih r seen' h
+    exact ⟨t', nxt', ext, q', List.mem_cons_of_mem _ hm, rest'⟩
+
+theorem fillBefore_sound_aux (d : Dfa) (gen : TypeId → Bool) (q : Nat) (after : List TypeId) (toEnd : Bool)
+    (hdet : ∀ q, ((d.edgesOf q).map (·.1)).Nodup)
+    (fill : List TypeId) (h : fillBefore d gen q after toEnd = some fill) :
+    isFill d gen q after toEnd fill = true := by
+  unfold fillBefore at h
+  rcases hs : fillSearch d gen after toEnd (d.size + 1) q [] [q] with ⟨r, seen'⟩
+  rw [hs] at h
+  simp only at h
+  subst h
+  obtain ⟨ext, q', hr, hall, hrun, hf⟩ := (fillSearch_sound_aux d gen after toEnd hdet).1 _ _ _ _ _ _ hs
+  simp only [List.nil_append] at hr
+  subst hr
+  rw [isFill_eq, hall, hrun]
+  simpa using hf
+
+/-! ### completeness of `fillSearch` -/
+
+/-- number of automaton states not yet marked -/
+def unseen (n : Nat) (seen : List Nat) : Nat := (List.range n).countP (fun x => !seen.contains x)
+
+theorem unseen_le (n : Nat) (seen : List Nat) : unseen n seen ≤ n := by
+  unfold unseen
+  exact Nat.le_trans List.countP_le_length (by simp)
+
+theorem unseen_mono {n : Nat} {a b : List Nat} (h : ∀ x, x ∈ a → x ∈ b) : unseen n b ≤ unseen n a := by
+  unfold unseen
+  apply List.countP_mono_left
+  intro x _ hx
+  simp only [List.contains_eq_mem, Bool.not_eq_eq_eq_not, Bool.not_true, decide_eq_false_iff_not] at hx ⊢
+  exact fun ha => hx (h x ha)
+
+theorem countP_lt_of_mem {α : Type} {p q : α → Bool} (a : α) :
+    ∀ (l : List α), a ∈ l → p a = false → q a = true → (∀ x, p x = true → q x = true) →
+      l.countP p < l.countP q
+  | [], h, _, _, _ => by simp at h
+  | b :: l, h, hp, hq, hpq => by
+    have hle : l.countP p ≤ l.countP q := List.countP_mono_left (fun x _ => hpq x)
+    rcases List.mem_cons.1 h with rfl | h
+    · simp only [List.countP_cons, hp, hq]; simp; omega
+    · have ih := countP_lt_of_mem a l h hp hq hpq
+      simp only [List.countP_cons]
+      have := hpq b
+      cases hb : p b <;> cases hb' : q b <;> simp_all <;> omega
+
+theorem unseen_cons_lt {n x : Nat} {seen : List Nat} (hx : x < n) (hns : x ∉ seen) :
+    unseen n (x :: seen) < unseen n seen := by
+  unfold unseen
+  apply countP_lt_of_mem x
+  · simpa using hx
+  · simp
+  · simpa using hns
+  · intro y hy
+    simp only [List.contains_eq_mem, List.mem_cons, Bool.not_eq_eq_eq_not, Bool.not_true,
+      decide_eq_false_iff_not, not_or] at hy ⊢
+    exact hy.2
+
+/-- `x` is not a stopping state and all its generatable successors lie in `S` -/
+def FillClosed (d : Dfa) (gen : TypeId → Bool) (after : List TypeId) (toEnd : Bool) (x : Nat) (S : List Nat) : Prop :=
+  fillFinished d after toEnd x = false ∧ ∀ t y, (t, y) ∈ d.edgesOf x → gen t = true → y ∈ S
+
+theorem FillClosed.mono {d : Dfa} {gen : TypeId → Bool} {after : List TypeId} {toEnd : Bool} {x : Nat}
+    {S S' : List Nat} (h : FillClosed d gen after toEnd x S) (hs : ∀ y, y ∈ S → y ∈ S') :
+    FillClosed d gen after toEnd x S' :=
+  ⟨h.1, fun t y hm hg => hs y (h.2 t y hm hg)⟩
+
+theorem fillSearch_complete_aux (d : Dfa) (gen : TypeId → Bool) (after : List TypeId) (toEnd : Bool)
+    (hd : ∀ q t q', (t, q') ∈ d.edgesOf q → q' < d.size) :
+    (∀ (fuel q : Nat) (types : List TypeId) (seen : List Nat),
+      unseen d.size seen < fuel →
+      ∀ seen', fillSearch d gen after toEnd fuel q types seen = (none, seen') →
+        (∀ x, x ∈ seen → x ∈ seen') ∧
+        (∀ x, x ∈ seen' → (x ∉ seen ∨ x = q) → FillClosed d gen after toEnd x seen')) ∧
+    (∀ (fuel : Nat) (edges : List (TypeId × Nat)) (types : List TypeId) (seen : List Nat),
+      unseen d.size seen ≤ fuel → (∀ t y, (t, y) ∈ edges → y < d.size) →
+      ∀ seen', fillEdges d gen after toEnd fuel edges types seen = (none, seen') →
+        (∀ x, x ∈ seen → x ∈ seen') ∧
+        (∀ x, x ∈ seen' → x ∉ seen → FillClosed d gen after toEnd x seen') ∧
+        (∀ t y, (t, y) ∈ edges → gen t = true → y ∈ seen')) := by
+  apply fillSearch.mutual_induct d gen after toEnd
+  · intro q types seen hf
+    omega
+  · intro fuel q types seen finished hfin _ seen' h
+    rw [fillSearch.eq_2, if_pos hfin] at h
+    simp at h
+  · intro fuel q types seen finished hfin ih hf seen' h
+    rw [fillSearch.eq_2, if_neg hfin] at h
+    obtain ⟨h1, h2, h3⟩ := ih (by omega) (fun t y hm => hd q t y hm) seen' h
+    refine ⟨h1, ?_⟩
+    intro x hx hc
+    by_cases hxs : x ∈ seen
+    · have hxq : x = q := by
+        rcases hc with hc | hc
+        · exact absurd hxs hc
+        · exact hc
+      subst hxq
+      refine ⟨?_, h3⟩
+      exact Bool.eq_false_iff.2 hfin
+    · exact h2 x hx hxs
+  · intro fuel types seen _ _ seen' h
+    rw [fillEdges.eq_1] at h
+    simp only [Prod.mk.injEq, true_and] at h
+    subst h
+    exact ⟨fun _ h => h, fun x hx hn => absurd hx hn, by simp⟩
+  · intro fuel t nxt rest types seen hc r0 seen0 hs _ _ _ seen' h
+    rw [fillEdges.eq_2, if_pos hc, hs] at h
+    simp at h
+  · intro fuel t nxt rest types seen hc seen0 hs ih1 ih2 hf hlt seen' h
+    rw [fillEdges.eq_2, if_pos hc, hs] at h
+    simp only [Bool.and_eq_true, Bool.not_eq_eq_eq_not, Bool.not_true, List.contains_eq_mem,
+      decide_eq_false_iff_not] at hc
+    have hnx : nxt < d.size := hlt t nxt (by simp)
+    obtain ⟨a1, a2⟩ := ih1 (by have := unseen_cons_lt hnx hc.2; omega) seen0 hs
+    have hsub0 : ∀ x, x ∈ seen → x ∈ seen0 := fun x hx => a1 x (List.mem_cons_of_mem _ hx)
+    obtain ⟨b1, b2, b3⟩ := ih2 (by have := unseen_mono (n := d.size) hsub0; omega)
+      (fun t' y hm => hlt t' y (List.mem_cons_of_mem _ hm)) seen' h
+    refine ⟨fun x hx => b1 x (hsub0 x hx), ?_, ?_⟩
+    · intro x hx hxs
+      by_cases hx0 : x ∈ seen0
+      · refine (a2 x hx0 ?_).mono b1
+        by_cases hxn : x = nxt
+        · exact Or.inr hxn
+        · exact Or.inl (by simp [hxn, hxs])
+      · exact b2 x hx hx0
+    · intro t' y hm hg
+      rcases List.mem_cons.1 hm with he | hm
+      · simp only [Prod.mk.injEq] at he
+        rw [he.2]
+        exact b1 nxt (a1 nxt (by simp))
+      · exact b3 t' y hm hg
+  · intro fuel t nxt rest types seen hc ih hf hlt seen' h
+    rw [fillEdges.eq_2, if_neg hc] at h
+    obtain ⟨b1, b2, b3⟩ := ih hf (fun t' y hm => hlt t' y (List.mem_cons_of_mem _ hm)) seen' h
+    refine ⟨b1, b2, ?_⟩
+    intro t' y hm hg
+    rcases List.mem_cons.1 hm with he | hm
+    · simp only [Prod.mk.injEq] at he
+      obtain ⟨rfl, rfl⟩ := he
+      simp only [hg, Bool.true_and, Bool.not_eq_eq_eq_not, Bool.not_true, List.contains_eq_mem,
+        decide_eq_false_iff_not, Decidable.not_not] at hc
+      exact b1 y hc
+    · exact b3 t' y hm hg
+
+theorem run_mem_of_closed {d : Dfa} {gen : TypeId → Bool} {after : List TypeId} {toEnd : Bool} {S : List Nat}
+    (hS : ∀ x, x ∈ S → FillClosed d gen after toEnd x S) :
+    ∀ (fill : List TypeId) (x q' : Nat), x ∈ S → fill.all gen = true → d.run x fill = some q' → q' ∈ S
+  | [], x, q', hx, _, hr => by
+    simp only [Dfa.run, Option.some.injEq] at hr
+    exact hr ▸ hx
+  | t :: fill, x, q', hx, hg, hr => by
+    simp only [List.all_cons, Bool.and_eq_true] at hg
+    simp only [Dfa.run] at hr
+    rcases hm : d.matchType x t with _ | y
+    · simp [hm] at hr
+    · rw [hm] at hr
+      exact run_mem_of_closed hS fill y q' ((hS x hx).2 t y (Dfa.mem_of_matchType hm) hg.1) hg.2 hr
+
+theorem fillBefore_complete_aux (d : Dfa) (hd : ∀ q t q', (t, q') ∈ d.edgesOf q → q' < d.size)
+    (gen : TypeId → Bool) (q : Nat) (after : List TypeId) (toEnd : Bool)
+    (h : fillBefore d gen q after toEnd = none) (fill : List TypeId) :
+    isFill d gen q after toEnd fill = false := by
+  unfold fillBefore at h
+  rcases hs : fillSearch d gen after toEnd (d.size + 1) q [] [q] with ⟨r, seen'⟩
+  rw [hs] at h
+  simp only at h
+  subst h
+  obtain ⟨h1, h2⟩ := (fillSearch_complete_aux d gen after toEnd hd).1 _ _ _ _
+    (by have := unseen_le d.size [q]; omega) _ hs
+  have hS : ∀ x, x ∈ seen' → FillClosed d gen after toEnd x seen' := by
+    intro x hx
+    refine h2 x hx ?_
+    by_cases hxq : x = q
+    · exact Or.inr hxq
+    · exact Or.inl (by simp [hxq])
+  rw [isFill_eq]
+  cases hall : fill.all gen
+  · simp
+  · rcases hrun : d.run q fill with _ | q'
+    · simp
+    · have := run_mem_of_closed hS fill q q' (h1 q (by simp)) hall hrun
+      simpa using (hS q' this).1
+
+/-! ### soundness of `wrapSearch` -/
+
+theorem chainInner_snoc (S : Schema) (t tgt w : TypeId) (s : Nat)
+    (hl : (S.dfa w).matchType 0 t = some s) (hv : (S.dfa w).validEnd s = true)
+    (ht : ((S.dfa t).matchType 0 tgt).isSome = true) :
+    ∀ pre : List TypeId, chainInner S t (pre ++ [w]) = true → chainInner S tgt (pre ++ [w, t]) = true
+  | [], _ => by simp [chainInner, hl, hv, ht]
+  | [a], h => by
+    have ih := chainInner_snoc S t tgt w s hl hv ht [] (by
+      simp only [List.cons_append, List.nil_append, chainInner, Bool.and_eq_true] at h
+      simpa [chainInner] using h.2)
+    simp only [List.cons_append, List.nil_append, chainInner, Bool.and_eq_true] at h ⊢
+    exact ⟨h.1, by simpa [chainInner] using ih⟩
+  | a :: b :: pre, h => by
+    simp only [List.cons_append, chainInner, Bool.and_eq_true] at h ⊢
+    exact ⟨h.1, chainInner_snoc S t tgt w s hl hv ht (b :: pre) h.2⟩
+
+theorem isWrapChain_snoc (S : Schema) (d : Dfa) (q : Nat) (t tgt w : TypeId) (s : Nat) (chain : List TypeId)
+    (hlast : chain.getLast? = some w)
+    (hc : isWrapChain S d q t chain = true)
+    (hl : (S.dfa w).matchType 0 t = some s) (hv : (S.dfa w).validEnd s = true)
+    (hok : S.wrapOk t = true)
+    (ht : ((S.dfa t).matchType 0 tgt).isSome = true) :
+    isWrapChain S d q tgt (chain ++ [t]) = true := by
+  obtain ⟨pre, rfl⟩ := List.getLast?_eq_some_iff.1 hlast
+  have key := chainInner_snoc S t tgt w s hl hv ht pre
+  rcases pre with _ | ⟨a, pre⟩
+  · simp only [isWrapChain, List.nil_append, List.cons_append, List.all_cons, List.all_nil, Bool.and_true,
+      Bool.and_eq_true] at hc ⊢
+    simp only [List.nil_append] at key
+    exact ⟨⟨hc.1, hok⟩, hc.2.1, key hc.2.2⟩
+  · simp only [isWrapChain, List.cons_append, List.all_cons, List.all_append, List.all_nil, Bool.and_true,
+      Bool.and_eq_true, List.append_assoc] at hc ⊢
+    simp only [List.cons_append] at key
+    exact ⟨⟨hc.1.1, hc.1.2.1, hc.1.2.2, trivial, hok⟩, hc.2.1, key hc.2.2⟩
+
+/-- invariant of every queued item of `wrapSearch` -/
+def WrapInv (S : Schema) (d : Dfa) (q : Nat) (a : Active) : Prop :=
+  (a.root = true → a.chain = []) ∧
+  (a.root = false → a.state = 0 ∧ a.chain.getLast? = some a.dfaOf) ∧
+  ∀ tgt, ((if a.root = true then d else S.dfa a.dfaOf).matchType a.state tgt).isSome = true →
+    isWrapChain S d q tgt a.chain = true
+
+theorem foldl_inv {α β : Type} (P : β → Prop) (f : β → α → β) :
+    ∀ (es : List α) (acc : β), (∀ acc e, e ∈ es → P acc → P (f acc e)) → P acc → P (es.foldl f acc)
+  | [], acc, _, h => h
+  | e :: es, acc, hf, h => by
+    simp only [List.foldl_cons]
+    exact foldl_inv P f es (f acc e) (fun acc e' he' => hf acc e' (List.mem_cons_of_mem _ he'))
+      (hf acc e (by simp) h)
+
+theorem wrapInv_extend (S : Schema) (d : Dfa) (q : Nat)
+    (hdet : ∀ w, (((S.dfa w).edgesOf 0).map (·.1)).Nodup)
+    (cur : Active) (hcur : WrapInv S d q cur) (t : TypeId) (s : Nat)
+    (he : (t, s) ∈ (if cur.root = true then d else S.dfa cur.dfaOf).edgesOf cur.state)
+    (hok : S.wrapOk t = true)
+    (hv : (cur.root || (if cur.root = true then d else S.dfa cur.dfaOf).validEnd s) = true) :
+    WrapInv S d q { dfaOf := t, state := 0, chain := cur.chain ++ [t], root := false } := by
+  obtain ⟨h1, h2, h3⟩ := hcur
+  have hct := h3 t (Dfa.matchType_isSome_of_mem he)
+  refine ⟨by simp, fun _ => ⟨rfl, by simp⟩, ?_⟩
+  intro tgt htgt
+  simp only [Bool.false_eq_true, if_false] at htgt
+  cases hr : cur.root
+  · obtain ⟨hs0, hlast⟩ := h2 hr
+    simp only [hr, Bool.false_eq_true, if_false, Bool.false_or, hs0] at he hv
+    exact isWrapChain_snoc S d q t tgt cur.dfaOf s cur.chain hlast hct
+      (Dfa.matchType_of_mem_nodup (hdet _) he) hv hok htgt
+  · have hnil := h1 hr
+    rw [hnil] at hct ⊢
+    simp only [isWrapChain, List.all_nil, Bool.true_and] at hct
+    simp [isWrapChain, chainInner, hok, hct, htgt]
+
+theorem wrapSearch_sound (S : Schema) (d : Dfa) (q : Nat) (target : TypeId)
+    (hdet : ∀ w, (((S.dfa w).edgesOf 0).map (·.1)).Nodup) :
+    ∀ (fuel : Nat) (queue : List Active) (seen : List TypeId) (chain : List TypeId),
+      (∀ a, a ∈ queue → WrapInv S d q a) →
+      wrapSearch S d target fuel queue seen = some chain → isWrapChain S d q target chain = true
+  | 0, _, _, _, _, h => by simp [wrapSearch] at h
+  | _ + 1, [], _, _, _, h => by simp [wrapSearch] at h
+  | fuel + 1, cur :: queue, seen, chain, hq, h => by
+    rw [wrapSearch.eq_3] at h
+    by_cases hm : ((if cur.root = true then d else S.dfa cur.dfaOf).matchType cur.state target).isSome = true
+    · rw [if_pos hm] at h
+      simp only [Option.some.injEq] at h
+      subst h
+      exact (hq cur (by simp)).2.2 target hm
+    · rw [if_neg hm] at h
+      refine wrapSearch_sound S d q target hdet fuel _ _ chain ?_ h
+      intro a ha
+      rcases List.mem_append.1 ha with ha | ha
+      · exact hq a (List.mem_cons_of_mem _ ha)
+      · refine foldl_inv (fun acc : List Active × List TypeId => ∀ a, a ∈ acc.1 → WrapInv S d q a)
+          _ _ _ ?_ ?_ a ha
+        · rintro ⟨q', seen'⟩ ⟨t, s⟩ he hacc
+          dsimp only
+          by_cases hc : (S.wrapOk t && !seen'.contains t &&
+              (cur.root || (if cur.root = true then d else S.dfa cur.dfaOf).validEnd s)) = true
+          · rw [if_pos hc]
+            simp only [Bool.and_eq_true] at hc
+            intro a ha
+            rcases List.mem_append.1 ha with ha | ha
+            · exact hacc a ha
+            · simp only [List.mem_singleton] at ha
+              subst ha
+              exact wrapInv_extend S d q hdet cur (hq cur (by simp)) t s he hc.1.1 hc.2
+          · rw [if_neg hc]
+            exact hacc
+        · simp
+
+theorem findWrapping_sound_aux (S : Schema) (d : Dfa) (q : Nat) (target : TypeId)
+    (hdet : ∀ w, (((S.dfa w).edgesOf 0).map (·.1)).Nodup) (chain : List TypeId)
+    (h : findWrapping S d q target = some chain) : isWrapChain S d q target chain = true := by
+  unfold findWrapping at h
+  refine wrapSearch_sound S d q target hdet _ _ _ chain ?_ h
+  intro a ha
+  simp only [List.mem_singleton] at ha
+  subst ha
+  refine ⟨fun _ => rfl, by simp, ?_⟩
+  intro tgt htgt
+  simpa [isWrapChain] using htgt
+
 end PM
